@@ -12,7 +12,7 @@ ENGINES = [
     {
         "name": "xh",
         "path": "/verif/xh",
-        "serves_properties": [],
+        "serves_properties": ["C15"],
         "kind_free_text": "CrossHair 0.0.110 (symbolic execution of Python with z3) over generated PEP-316 harness "
         "functions that call the real pure-Python kernels",
     },
@@ -136,6 +136,29 @@ CLAIMED = {
     },
 }
 
+_XH_NOTE = (
+    "trusted: CrossHair 0.0.110 (symbolic execution of CPython code with z3) and its models of builtins; the harness "
+    "functions call the real geoh5py kernels directly (no translation); holds only within the value bounds in the evidence"
+)
+
+
+def _xh(section, technique, text, note=_XH_NOTE):
+    return {"engine": "xh", "technique": technique, "level_text": text, "level_note": note,
+            "design_ref": f"DESIGN.md section 5, {section}"}
+
+
+CLAIMED["C15"] = _xh(
+    "C15",
+    "CrossHair symbolic execution (z3) of PEP-316 conditions over the real ui.json utilities, validators, enforcers and "
+    "parameters; 'Confirmed over all paths' per condition; counterexamples replayed in plain Python",
+    "bounded symbolic model checking: requires_value equals a reference of the documented switch hierarchy for all 2^11 "
+    "switch combinations; value and choice forms accept a value iff their declared type / choice list / None rule admits "
+    "it; Type/Value/Optional/Required/Shape validators are exact; EnforcerPool, Parameter and "
+    "InputValidation.validate_data give history-independent verdicts and a rejected Parameter assignment leaves the "
+    "stored value unchanged. Values: None, bool, small ints, strings of length <= 1 (alphabet of 8 values for "
+    "set-membership conditions).",
+)
+
 _NOT_BUILT = "check not built yet (planned, see DESIGN.md section 5)"
 
 NOT_APPLICABLE = {
@@ -157,5 +180,4 @@ NOT_APPLICABLE = {
     "histories over an object graph, no value-level kernel",
     "C06": _NOT_BUILT,
     "C14": _NOT_BUILT,
-    "C15": _NOT_BUILT,
 }
